@@ -2922,23 +2922,21 @@ class Recipe:
                     after_substances += step.frm[1].contents.get(substance, 0)
             after_substances += step.trash.get(substance, 0)
             delta += after_substances - before_substances
-            # A net change of zero comes out as rounding noise of either sign. Step by step: every amount the step changed
-            # was rounded to the internal precision (half a digit each; a single container or well opposite n wells was
-            # changed n times), each time also to the last digit of a float of what the step's objects hold in all.
-            changed = []
-            for before, after in ((step.to[0], step.to[1]), (step.frm[0], step.frm[1])):
-                pairs = [] if before is None else [(before, after)] if isinstance(before, Container) \
-                    else zip(before.wells.flatten(), after.wells.flatten())
-                changed.append(sum(1 for well_before, well_after in pairs
-                                   if well_before.contents.get(substance, 0) != well_after.contents.get(substance, 0)))
-            roundings = 0
-            if step.to[0] is not None and step.to[0].name in dest_names:
-                roundings += changed[0] if changed[0] != 1 else max(changed[1], 1)
-            if step.frm[0] is not None and step.frm[0].name in dest_names and not (
-                    step.to[0] is not None and step.to[0].name == step.frm[0].name):
-                roundings += changed[1] if changed[1] != 1 else max(changed[0], 1)
-            noise += 0.5 * 10 ** -config.internal_precision * roundings + \
-                2.5e-16 * (roundings + 4) * (abs(before_substances) + abs(after_substances))
+            # A net change of zero comes out as rounding noise of either sign. What a step's roundings amounted to is on
+            # record: a transfer step moves material between two objects and creates and destroys none, so whatever the two
+            # together hold more or less afterwards is rounding (mostly nothing: amounts are whole stored digits, what
+            # one side is rounded up by the other is rounded down by - except at a tie, and in the last digits of a float
+            # when one of them holds litres). Nothing else is allowed for, however many wells and steps there are.
+            noise += 1e-15 * (abs(before_substances) + abs(after_substances))  # (the sums above, in floats)
+            if step.operator == 'transfer':
+                def held(what):
+                    return sum(well.contents.get(substance, 0) for well in what.wells.flatten()) \
+                        if isinstance(what, Plate) else what.contents.get(substance, 0)
+                one_object = step.to[0].name == step.frm[0].name
+                moved_before = held(step.to[0]) + (0 if one_object else held(step.frm[0]))
+                moved_after = held(step.to[1]) + (0 if one_object else held(step.frm[1])) + step.trash.get(substance, 0)
+                noise += abs(moved_after - moved_before) + 1e-15 * (abs(moved_before) + abs(moved_after))
+            # (steps that add material from outside - solvent, solutes - only ever add)
 
         if -noise <= delta < 0:
             delta = 0
